@@ -48,6 +48,56 @@ fn verif_replay() {
         println!("VERIF-OUTCOME {}", out);
         return;
     }
+    if case["driver"].as_str() == Some("saturated_transfer") {
+        // one direction relays a saturated stream (the source always has more than one buffer queued, the destination is drained
+        // at a steady pace); on the side, once every 100 ms, the direction's idleness is asked with a period of 1 s: a direction
+        // that is moving data all the time must never look idle
+        let bufsz = a["buffer_size"].as_u64().unwrap_or(1024) as usize;
+        let seconds = a["seconds"].as_u64().unwrap_or(2);
+        let rt = tokio::runtime::Builder::new_multi_thread().worker_threads(2).enable_all().build().unwrap();
+        let out = rt.block_on(async move {
+            use tokio::io::{AsyncReadExt, AsyncWriteExt};
+            let (mut src_peer, src_ours) = tokio::io::duplex(bufsz * 64);
+            let (dst_ours, mut dst_peer) = tokio::io::duplex(bufsz * 4);
+            let (sr, _sw) = tokio::io::split(src_ours);
+            let (_dr, dw) = tokio::io::split(dst_ours);
+            let mut src = SrcHalf::new("server");
+            src.stream = Some(sr);
+            let mut dst = DstHalf::new("client");
+            dst.stream = Some(dw);
+            let stat: Arc<ContextStatistics> = Default::default();
+            let params = IoParams { buffer_size: bufsz, use_splice: false };
+            let stat2 = stat.clone();
+            let relay = tokio::spawn(async move {
+                copy_half(&params, src, dst, stat2, #[cfg(feature = "metrics")] prometheus::IntCounter::new("verif_relay_sat", "x").unwrap()).await.map_err(|e| e.to_string())
+            });
+            let feeder = tokio::spawn(async move {
+                let chunk = vec![0x55u8; bufsz * 16];
+                loop { if src_peer.write_all(&chunk).await.is_err() { break; } }
+            });
+            let drained = Arc::new(std::sync::atomic::AtomicUsize::new(0));
+            let d2 = drained.clone();
+            let drainer = tokio::spawn(async move {
+                let mut buf = vec![0u8; bufsz];
+                loop {
+                    match dst_peer.read(&mut buf).await { Ok(0) | Err(_) => break, Ok(n) => { d2.fetch_add(n, std::sync::atomic::Ordering::Relaxed); } }
+                    tokio::time::sleep(std::time::Duration::from_millis(2)).await;
+                }
+            });
+            let mut stale = false;
+            let mut samples = 0;
+            let t0 = std::time::Instant::now();
+            while t0.elapsed() < std::time::Duration::from_secs(seconds) + std::time::Duration::from_millis(600) {
+                tokio::time::sleep(std::time::Duration::from_millis(100)).await;
+                samples += 1;
+                if stat.is_timeout(std::time::Duration::from_secs(1)) { stale = true; break; }
+            }
+            feeder.abort(); drainer.abort(); relay.abort();
+            serde_json::json!({"panicked": false, "bytes_relayed": drained.load(std::sync::atomic::Ordering::Relaxed), "samples": samples, "stamp_went_stale": stale})
+        });
+        println!("VERIF-OUTCOME {}", out);
+        return;
+    }
     if case["driver"].as_str() == Some("bidi_reset") {
         // the real copy_bidi between two real TCP connections; one peer resets (SO_LINGER 0, unread data pending) -- at once, or only
         // after the other direction has ended cleanly (its sender half-closed and the far side saw the end of stream)
